@@ -13,7 +13,9 @@
    all of it reaches the peer; when it fails the peer sees a prefix of it (what bufio flushed on its own) and the
    connection is closed.
    Body streams: `st_pieces` are the non-empty byte slices successive Read calls deliver (a piece longer than the
-   buffer it is read into is delivered in several calls), then io.EOF, or a read error when `st_fail`.
+   buffer it is read into is delivered in several calls), then io.EOF, or a read error when `st_fail`.  The end is either
+   reported by a Read of its own (0, io.EOF) / (0, err), or — `st_with`, allowed by the io.Reader contract, e.g.
+   iotest.DataErrReader — together with the last bytes: (n > 0, io.EOF) / (n > 0, err); later Reads return (0, same).
    No proofs here (Proof/RespWriteProof.v). *)
 From FH Require Import Model.Base Gen.GenC05 Gen.GenC06 Gen.GenC30 Model.Ints Model.ByteClassModel Model.Cookie Model.HeaderWrite.
 Open Scope N_scope.
@@ -37,7 +39,7 @@ Inductive skind :=
 | SKReader      (* an io.Reader without WriteTo (this includes the pipe reader of SetBodyStreamWriter) *)
 | SKWriterTo    (* *bytes.Reader / *bytes.Buffer: copies itself with one Write (WriteTo) in both body writers *)
 | SKGenWriterTo. (* any other io.WriterTo (e.g. *strings.Reader): WriteTo in writeBodyFixedSize, Read loop in writeBodyChunked *)
-Record stream := mkStream { st_kind : skind; st_pieces : list bytes; st_fail : bool }.
+Record stream := mkStream { st_kind : skind; st_pieces : list bytes; st_fail : bool; st_with : bool }.
 Definition st_data (s : stream) : bytes := concat (st_pieces s).
 
 (* ---------- the Response object ---------- *)
@@ -164,6 +166,7 @@ Definition chunked_body (s : stream) : bytes * wres :=
       (match st_data s with [] => [] | d => enc_chunk d end ++ enc_last, WrOk)
   | SKReader =>
       let cs := concat (map enc_chunk (reads_of s)) in
+      (* n > 0: the chunk is written whatever err is; the end is acted upon by the next Read, which returns (0, err) *)
       if st_fail s then (cs, WrErr) else (cs ++ enc_last, WrOk)
   | SKGenWriterTo => (concat (map enc_chunk (reads_of s)) ++ enc_last, WrOk)
   end.
@@ -177,7 +180,11 @@ Definition fixed_body (s : stream) (size : Z) : bytes * wres :=
       (* io.LimitReader(r, size), then one probing Read *)
       let b := firstn (Z.to_nat size) d in
       if (blen d <? size)%Z then (b, WrErr)                  (* copied fewer bytes, or the read error *)
-      else if (blen d =? size)%Z then (b, WrOk)              (* the probe meets io.EOF or the read error: m = 0 *)
+      else if (blen d =? size)%Z then
+        (* a read error that arrives with the last declared byte is returned by bufio.Writer.ReadFrom through
+           io.LimitedReader: Write fails although every byte was copied; io.EOF arriving with it just ends the copy.
+           Otherwise the limit ends the copy and the probe meets io.EOF or the read error: m = 0 *)
+        if st_fail s && st_with s && nonempty d then (b, WrErr) else (b, WrOk)
       else (b, WrErr)                                        (* body stream yields more than size bytes *)
   end.
 
